@@ -42,12 +42,17 @@ PAIRS = [(str(code), verb) for code in CODES_SCHEMA for verb in VERBS if lengths
 # decide in the budget (0418 fault-log entry, 3220 OpenTherm frame): outside the generator's
 # reach.  They get the *bounded* native stand-in `outside_reach_payloads_native` (never counted
 # as proved) and are listed in the evidence.
-OUTSIDE_REACH = {"1030": "7^5 table look-ups", "2411": "parameter schema table",
-                 "0418": "fault-log entry: solver time", "3220": "OpenTherm frame: struct.unpack, >64-bit operations"}
+OUTSIDE_REACH = {"0418": "fault-log entry: solver time", "3220": "OpenTherm frame: struct.unpack, >64-bit operations"}
 # 31DA (18 independent field decoders: 2^18+ paths when inlined) is decided MODULARLY instead: every field decoder
 # under its own contract (field_decoder_contract), parser_31da / Message against those contracts
 # (parser_31da_is_the_merge_of_its_fields, hvac_state_decodes_or_is_rejected).
-MODULAR = {"31DA"}
+# 1030 (7^5 paths: five parameter groups, seven table entries each) likewise: the per-parameter decoder, a function
+# defined INSIDE parser_1030, has its own contract (mix_param_decoder_contract) and parser_1030 / Message are run
+# against it (mix_config_decodes_or_is_rejected).
+# 2411 (four values through one codec: paths^4): hex_to_temp / hex_to_percent by their C04 contracts, parser_2411 under
+# its own contract (fan_param_parser_contract; the 23-byte forms only in the thorough tier: 12 k paths each), Message
+# against that contract (fan_param_decodes_or_is_rejected).
+MODULAR = {"31DA", "1030", "2411"}
 
 
 def _in_reach(code, verb, n):
@@ -469,3 +474,141 @@ def hvac_state_decodes_or_is_rejected(code, verb, n, shape):
         cover("decoded")
         check(json_able(m.value.payload), "[C05] the decoded payload is plain JSON data")
         check(all(m.value.payload.get("_from_" + name) == payload[lo:hi] for name, lo, hi in FIELDS_31DA), "[C05] and carries every field's entries")
+
+
+# ---- 1030, modularly: the per-parameter decoder (a function defined inside parser_1030) under its own contract ----
+PARAMS_1030 = ("unknown_20", "unknown_21", "max_flow_setpoint", "min_flow_setpoint", "valve_run_time", "pump_run_time", "boolean_cc")
+
+
+@harness(("C05", "C01"))
+def mix_param_decoder_contract():
+    """parser_1030's inner _parser on EVERY 6-hex-digit group: one entry {parameter name: value 0..255} with the
+    value the group's last byte, or a rejecting error (unknown parameter id, wrong length byte) -- nothing else."""
+    f = inner_function(_parsers.parser_1030, "_parser")
+    g = sym_str("group", 6, "HEX")
+    o = outcome(f, g)
+    check(Or(o.ok, o.raised_in(REJECTS)), "[C01] the parameter decoder returns, or raises an error that rejects the packet, nothing else")
+    if o.ok:
+        cover("decoded")
+        check(isinstance(o.value, dict) and len(o.value) == 1, "[C05] one parameter per group")
+        for k, v in o.value.items():
+            check(k in PARAMS_1030, "[C05] the parameter is one of the seven known ones")
+            check(And(v == int(g[4:], 16), v >= 0, v <= 255), "[C05] its value is the group's value byte")
+
+
+def mix_param_callsite(seqx):
+    """parser_1030._parser by its contract (mix_param_decoder_contract): one {name: value} entry, or a rejecting error."""
+    ghost("param_calls").append(seqx)
+    if sym_bool("rejected_group_" + str(len(ghost("param_calls")))):
+        raise AssertionError(seqx)
+    return {"_group_" + str(len(ghost("param_calls"))): seqx}
+
+
+@harness(("C01", "C05"), cases=[c for c in ALL_CASES if c[0] == "1030" and not _in_reach(*c[:3])],
+         subst={inner_name(_parsers.parser_1030, "_parser"): mix_param_callsite, _packet.pkt_lifespan: pkt_lifespan_may_raise})
+def mix_config_decodes_or_is_rejected(code, verb, n, shape):
+    """The message-level clause for 1030 (7^5 paths when inlined), with the per-parameter decoder by contract:
+    every 3-byte group after the index byte is decoded exactly once, in order; Message(Packet(frame)) is a message
+    holding the groups' entries and the frame's index, or PacketInvalid -- nothing else."""
+    payload, frame = sym_frame(code, verb, n, shape)
+    p = outcome(Packet.from_port, NOW, "000 " + frame)
+    assume(p.ok)
+    m = outcome(Message, p.value)
+    check(Or(m.ok, m.raised_in(exc.PacketInvalid)), "[C01] a packet decodes to a message or is rejected with PacketInvalid, nothing else")
+    if m.ok:
+        cover("decoded")
+        calls = ghost("param_calls")
+        check(len(calls) == (n - 1) // 3, "[C05] every parameter group is decoded exactly once")
+        for i, c in enumerate(calls):
+            check(c == payload[2 + 6 * i: 8 + 6 * i], "[C05] each group is its own slice of the payload, in order")
+            check(m.value.payload.get("_group_" + str(i + 1)) == c, "[C05] and its entry is in the decoded payload")
+        check(json_able(m.value.payload), "[C05] the decoded payload is plain JSON data")
+        check(idx_consistent(code, payload, m.value.payload), "[C05] a reported zone/domain/log index is the one carried in the frame")
+
+
+# ---- 2411, modularly: the two value codecs by their C04 contracts -----------------------------------------------
+from .c04_codecs import s16  # noqa: E402
+
+
+def hex_to_temp_by_contract(value):
+    """hex_to_temp by its contract (C04 hex_to_temp_contract): None / False for the sentinels, ValueError below
+    absolute zero, else s16(word)/100.  Anything but a 4-hex word: the real function."""
+    if not is_hex_word(value, 4):
+        return real(H.hex_to_temp, value)
+    if value == "31FF" or value == "7FFF":
+        return None
+    if value == "7EFF":
+        return False
+    k = s16(value)
+    if k < -27315:
+        raise ValueError("below absolute zero")
+    return k / 100
+
+
+def hex_to_percent_by_contract(value, high_res=True):
+    """hex_to_percent by its contract (C04 hex_to_percent_contract): None for EF / Fx, ValueError above 100 %,
+    else raw/200 (raw/100).  Anything but a 2-hex byte: the real function."""
+    if not is_hex_word(value, 2):
+        return real(H.hex_to_percent, value, high_res)
+    raw = int(value, 16)
+    if raw >= 240 or value == "EF":
+        return None
+    if raw > (200 if high_res else 100):
+        raise ValueError("above 100%")
+    return raw / (200 if high_res else 100)
+
+
+def is_hex_word(value, n):
+    return isinstance(value, str) and len(value) == n
+
+
+class MsgOfParser:
+    """What a payload parser reads of its Message: the verb and the payload's byte count."""
+
+    def __init__(self, verb, n):
+        self.verb, self.len = verb, n
+
+
+CASES_2411 = sorted({(c[1], c[2]) for c in ALL_CASES if c[0] == "2411" and not _in_reach(*c[:3])})
+
+
+@harness(("C05", "C01"), cases=CASES_2411, quick=lambda verb, n: n < 23, budget_s=1500, heavy=lambda *a: True,
+         subst={H.hex_to_temp: hex_to_temp_by_contract, H.hex_to_percent: hex_to_percent_by_contract})
+def fan_param_parser_contract(verb, n):
+    """parser_2411 itself (its four values go through one codec: paths^4 when inlined), on EVERY payload of the schema
+    for the verb and length, with hex_to_temp / hex_to_percent by their C04 contracts: a dict of plain JSON data
+    whose parameter id is the payload's, or an error that rejects the packet -- nothing else."""
+    payload = sym_str("payload", 2 * n, "HEX")
+    assume(re.compile(CODES_SCHEMA["2411"][verb]).match(payload) is not None)
+    o = outcome(_parsers.parser_2411, payload, MsgOfParser(verb, n))
+    check(Or(o.ok, o.raised_in(REJECTS)), "[C01] parser_2411 returns, or raises an error that rejects the packet, nothing else")
+    if o.ok:
+        cover("decoded")
+        check(isinstance(o.value, dict) and json_able(o.value), "[C05] the decoded payload is plain JSON data")
+        check(ranges_ok(o.value), "[C05] ratios are within 0..1 and temperatures within the wire range")
+        check(o.value.get("parameter") == payload[4:6], "[C05] the parameter reported is the one carried in the payload")
+
+
+def parser_2411_callsite(payload, msg):
+    """parser_2411 by its contract (fan_param_parser_contract): a dict of plain JSON data naming the payload's
+    parameter, or a rejecting error."""
+    ghost("parser_calls").append(payload)
+    if sym_bool("rejected_by_parser_2411"):
+        raise AssertionError("2411")
+    return {"parameter": payload[4:6], "_from_parser_2411": payload}
+
+
+@harness(("C01", "C05"), cases=[c for c in ALL_CASES if c[0] == "2411" and not _in_reach(*c[:3])],
+         subst={_parsers.parser_2411: parser_2411_callsite, _packet.pkt_lifespan: pkt_lifespan_may_raise})
+def fan_param_decodes_or_is_rejected(code, verb, n, shape):
+    """The message-level clause for 2411 with parser_2411 by its contract: a message of plain JSON data naming the
+    frame's parameter, or PacketInvalid -- nothing else."""
+    payload, frame = sym_frame(code, verb, n, shape)
+    p = outcome(Packet.from_port, NOW, "000 " + frame)
+    assume(p.ok)
+    m = outcome(Message, p.value)
+    check(Or(m.ok, m.raised_in(exc.PacketInvalid)), "[C01] a packet decodes to a message or is rejected with PacketInvalid, nothing else")
+    if m.ok:
+        cover("decoded")
+        check(json_able(m.value.payload), "[C05] the decoded payload is plain JSON data")
+        check(m.value.payload.get("parameter") == payload[4:6], "[C05] the parameter reported is the one carried in the frame")
